@@ -191,6 +191,10 @@ func Unwind(k int) {}
 // SortStrings sorts concrete strings in place (a cheap intrinsic for the engine).
 func SortStrings(s []string) { sort.Strings(s) }
 
+// SplitCalendar asks the engine to case-split narrow symbolic years/months and short day-number ranges inside the
+// calendar functions (piecewise-linear per month) instead of leaving them to the solver. Natively a no-op.
+func SplitCalendar() {}
+
 // IgnorePanics: run-time panics of the code under test are not obligations of this harness (they belong to
 // C01/C08); the path is constrained to the non-panicking executions instead.
 func IgnorePanics() {}
